@@ -5,9 +5,12 @@ CONSTANTS
   MaxPub = 5
   MaxVer = 2
   VKinds <- AvcAll
-  DtPool <- Dt3
+  DtPool <- Dt2
   AscPool = {1, 2, 3}
   ProbeMax = 16
   GopNum = 1
-INVARIANTS AllOk EndComplete
+  TJoin = TRUE
+  RJoin = FALSE
+  RMut = "none"
+INVARIANTS AllOk EndComplete RAllOk REndComplete
 VIEW View
